@@ -273,7 +273,7 @@ def run(ctx):
             if any(x in r for x in some_points(v6)):
                 ok = False
                 det += '; a Neighbor Advertisement can leave without hop limit 255'
-        z = eq_edges(v6, lambda a, b: is_call(peel(a), r'get_hop_limit$') and const_val(b) == 0)
+        z = value_edges(v6, lambda k: is_call(peel(k), r'get_hop_limit$'), 0)
         ok = ok and bool(z) and not v6.must_pass(z, [b64])
         # every path to a reply passes the ==0 test
         test_blocks = sorted({b for (b, _) in z})
